@@ -51,6 +51,7 @@ type Model struct {
 	logErrors                      int
 	viol                           []Violation
 	step                           int
+	alsoProp                       string // engine-level tag: every violation of this run also belongs to this property
 	// coverage probes
 	Probes map[string]int
 }
@@ -66,6 +67,9 @@ func NewModel(cfg *Cfg) *Model {
 }
 
 func (m *Model) fail(props []string, rule string, key int, format string, a ...any) {
+	if m.alsoProp != "" {
+		props = withProp(props, m.alsoProp)
+	}
 	if len(m.viol) < 20 {
 		m.viol = append(m.viol, Violation{Props: props, Rule: rule, Detail: fmt.Sprintf(format, a...), Step: m.step, Key: key})
 	}
